@@ -2,6 +2,7 @@ package rules
 
 import (
 	"path/filepath"
+	"regexp"
 	"sort"
 	"strings"
 
@@ -33,9 +34,10 @@ func (c *Ctx) checkPins(f *FC, rule string, pins []pin) {
 			}
 			ks := ir.NewNormalizer()
 			ks.KeepShared = true
-			got := ir.String(f.Path, ks.Func(fn))
+			got := canonDiag(ir.String(f.Path, ks.Func(fn)))
+			p.want = canonDiag(p.want)
 			if got != p.want {
-				if got2, helpers := f.nfInliningNewHelpers(fn, true); len(helpers) > 0 && got2 == p.want {
+				if got2, helpers := f.nfInliningNewHelpers(fn, true); len(helpers) > 0 && canonDiag(got2) == p.want {
 					c.R.OK(rule, p.fn, "closed-form", c.Pos(f.M.Fset, fn.Decl.Pos()), p.why+" (after inlining the helper(s) added since the review: "+strings.Join(helpers, ", ")+")")
 					continue
 				}
@@ -47,6 +49,7 @@ func (c *Ctx) checkPins(f *FC, rule string, pins []pin) {
 				sh = newShaper(f)
 			}
 			got, fn := sh.Template(p.fn)
+			got, p.want = canonDiag(got), canonDiag(p.want)
 			if fn == nil {
 				c.R.Undecided(rule, p.fn, "definition", f.M.Dir, "anchor function not found (renamed or removed): "+p.why)
 				continue
@@ -97,4 +100,22 @@ func (f *FC) nfInliningNewHelpers(fn *ir.Func, keepShared bool) (string, []strin
 	}
 	sort.Strings(names)
 	return got, names
+}
+
+
+// canonDiag replaces the message literal of a no-return diagnostic call by <msg>: the wording of diagnostics is
+// not fixed by any property, so rewording one must not change a compared form.  (Text that is *emitted into the
+// program* — e.g. the never-reached panic of a match — sits inside a larger literal with escaped quotes and is
+// not touched.)
+var diagRes = []*regexp.Regexp{
+	regexp.MustCompile(`\b(PanicNow|panic|frt\.Panic)\("(?:[^"\\]|\\.)*"\)`),
+	regexp.MustCompile(`\b(psPanic\([^"]*?, )"(?:[^"\\]|\\.)*"\)`),
+	regexp.MustCompile(`\b(frt\.Panicf[0-9]\()"(?:[^"\\]|\\.)*"`),
+}
+
+func canonDiag(s string) string {
+	s = diagRes[0].ReplaceAllString(s, "$1(<msg>)")
+	s = diagRes[1].ReplaceAllString(s, "$1<msg>)")
+	s = diagRes[2].ReplaceAllString(s, "$1<msg>")
+	return s
 }
